@@ -103,8 +103,13 @@ CLAIMED = {
     technique='CrossHair symbolic execution over small symbolic integers with generated pre/post contracts'),
 }
 
+CLAIMED['C20'] = dict(
+    text='Bounded symbolic verification of the four time-series figure classes on pandas frames with concrete structure and symbolic times, values, doses, durations and predictive samples: add_data / add_simulation traces are compared cell by cell with the ground truth (one marker trace per individual of the chosen observable with exactly its points in row order, dose panels with exactly its dose rows, the caller\'s frame unchanged); for add_prediction with bulk probabilities pandas\' rank / max / min compare symbolic samples, so each explorer path is one (weak) ordering of the samples of every time point, and on each path it is decided that both limits are sample values of that time point, that at least the requested fraction of its samples lies between them, and that bands are nested.',
+    design='5 C20',
+    note='Trusted: real pandas on object columns (rank, masks, max/min call the Python comparison of the cells, which is the explorer\'s decision point), plotly keeping object arrays as given, z3. Bounds: 3 individuals x 6 row layouts, 2-4 samples per time point in every weak ordering, 5 (6-7) distinct samples in every strict ordering, 8-20 (30) samples in 4 fixed strict orderings. Outside: residual and other figure classes, rendering beyond the trace arrays.',
+    technique='symbolic execution of the real code on pandas/plotly object arrays; path per sample ordering; term identity + SMT decisions of the enclosure and nesting conditions')
+
 NOT_APPLICABLE = {
- 'C20': 'solver-based checking cannot reach it here: trace contents come from pandas masking / Series.rank and plotly; an SMT model would verify a model of pandas, not chi; see DESIGN.md section 6',
 }
 PENDING = 'check not built yet in this round (planned, see DESIGN.md section 5)'
 
